@@ -225,7 +225,7 @@ def parse_fields(line):
 
 BASE = [("rand", 600, []), ("tiny", 600, []), ("wide", 40, []), ("mutate", 200, []), ("insert", 200, []),
         ("order", 100, []), ("retain", 100, []), ("iter", 150, []), ("clone", 100, []), ("capacity", 40, []),
-        ("churn", 3, []), ("huge", 1, []), ("extreme", 120, []), ("panicx", 0, ["--rounds", "2"]), ("deepreplace", 0, []), ("tomb", 0, []), ("cluster", 0, []), ("panic", 60, []), ("exh", 0, ["--depth", "2"])]
+        ("churn", 3, []), ("huge", 1, []), ("extreme", 120, []), ("panicx", 0, ["--rounds", "2"]), ("deepreplace", 0, []), ("bigevict", 0, []), ("tomb", 0, []), ("cluster", 0, []), ("panic", 60, []), ("exh", 0, ["--depth", "2"])]
 
 
 def fam(name, seqs, *extra):
@@ -315,8 +315,8 @@ MIRI_PLAN = {
 MIRI_FLAGS = "-Zmiri-disable-isolation -Zmiri-permissive-provenance -Zmiri-ignore-leaks"
 
 QUICK_MULT = 3
-EXHAUSTIVE_FAMILIES = {"iterx", "forgetx", "retainx", "capx", "panicx", "exh", "slide", "tomb", "cluster", "deepreplace"}
-SHARDED = {"iterx", "forgetx", "retainx", "panicx", "exh", "slide", "tomb", "cluster", "deepreplace"}
+EXHAUSTIVE_FAMILIES = {"iterx", "forgetx", "retainx", "capx", "panicx", "exh", "slide", "tomb", "cluster", "deepreplace", "bigevict"}
+SHARDED = {"iterx", "forgetx", "retainx", "panicx", "exh", "slide", "tomb", "cluster", "deepreplace", "bigevict"}
 
 
 def plan(prop, tier):
